@@ -25,8 +25,8 @@ Proof. exact norm_significant. Qed.
 Theorem C03_norm_significant_sorted_partial :
   forall c ts, exists l, rewrites c (significant ts) l /\
     (significant (norm c ts) = l
-     \/ exists G, l = concat (map group_toks G)
-                  /\ significant (norm c ts) = concat (map group_toks (sort_groups G))).
+     \/ exists G, l = List.concat (map group_toks G)
+                  /\ significant (norm c ts) = List.concat (map group_toks (sort_groups G))).
 Proof. exact norm_significant_sorted. Qed.
 
 Theorem C03_norm_significant_perm :
